@@ -258,6 +258,7 @@ pub fn property() -> Property {
                 }
                 for (j, mb) in ms.iter().enumerate() {
                     st.cases += 1;
+                    crate::engine::beat();
                     st.observations += 1;
                     check_pair(ma, mb, &acts, 3)?;
                     let interesting = m_cmp(ma, mb).is_none() || (ma.len() != mb.len() && m_cmp(ma, mb).is_some());
